@@ -627,31 +627,6 @@ func (a *FnA) FactsAt(b *ssa.BasicBlock) Facts {
 
 func (a *FnA) FactsOf(in ssa.Instruction) Facts { return a.FactsAt(in.Block()) }
 
-// FactsOnEdge: facts known when control passes from pred to succ (facts at pred plus the literals
-// the edge itself asserts).
-func (a *FnA) FactsOnEdge(pred, succ *ssa.BasicBlock) Facts {
-	f := Facts{}
-	for k, v := range a.FactsAt(pred) {
-		f[k] = v
-	}
-	n := 0
-	idx := -1
-	for i, s := range pred.Succs {
-		if s == succ {
-			n++
-			idx = i
-		}
-	}
-	if n == 1 {
-		for _, l := range a.edgeLits(pred, idx) {
-			if _, dup := f[l.Atom]; !dup {
-				f[l.Atom] = l.Pol
-			}
-		}
-	}
-	return f
-}
-
 // ---------------------------------------------------------------------------------------------
 // Cut reachability (P4)
 
@@ -667,88 +642,6 @@ func instrIndex(in ssa.Instruction) int {
 		}
 	}
 	return -1
-}
-
-// FindPath searches a path start -> ... -> target (blocks) that enters no block of blocked, takes
-// no excused edge and never re-enters start (one loop iteration). It returns nil if none exists.
-func (a *FnA) FindPath(start, target *ssa.BasicBlock, blocked map[*ssa.BasicBlock]bool, excused func(from *ssa.BasicBlock, i int) bool) []*ssa.BasicBlock {
-	if start == target {
-		return []*ssa.BasicBlock{start}
-	}
-	prev := map[*ssa.BasicBlock]*ssa.BasicBlock{start: nil}
-	queue := []*ssa.BasicBlock{start}
-	for len(queue) > 0 {
-		b := queue[0]
-		queue = queue[1:]
-		for i, s := range b.Succs {
-			if s == start {
-				continue
-			}
-			if _, seen := prev[s]; seen {
-				continue
-			}
-			if excused != nil && excused(b, i) {
-				continue
-			}
-			if s == target {
-				path := []*ssa.BasicBlock{s}
-				for x := b; x != nil; x = prev[x] {
-					path = append([]*ssa.BasicBlock{x}, path...)
-				}
-				return path
-			}
-			if blocked[s] {
-				continue
-			}
-			prev[s] = b
-			queue = append(queue, s)
-		}
-	}
-	return nil
-}
-
-func pathString(p []*ssa.BasicBlock) string {
-	var s []string
-	for _, b := range p {
-		s = append(s, fmt.Sprintf("%d(%s)", b.Index, b.Comment))
-	}
-	return strings.Join(s, "→")
-}
-
-// excuseBy builds an excused-edge predicate from a set of literals: an edge is excused if it asserts
-// one of them.
-func (a *FnA) excuseBy(ex []Lit) func(*ssa.BasicBlock, int) bool {
-	return func(from *ssa.BasicBlock, i int) bool {
-		for _, l := range a.edgeLits(from, i) {
-			for _, e := range ex {
-				if l == e {
-					return true
-				}
-			}
-		}
-		return false
-	}
-}
-
-// Cut: every path from start to the target instruction passes one of the effect instructions or an
-// excused edge. Returns a counter-example path or nil.
-func (a *FnA) Cut(start *ssa.BasicBlock, target ssa.Instruction, effects []ssa.Instruction, ex []Lit) []*ssa.BasicBlock {
-	blocked := map[*ssa.BasicBlock]bool{}
-	tb := target.Block()
-	ti := instrIndex(target)
-	for _, e := range effects {
-		if e.Block() == tb {
-			if instrIndex(e) < ti {
-				return nil // effect precedes target in its own block: every arrival passes it
-			}
-			continue
-		}
-		blocked[e.Block()] = true
-	}
-	if blocked[start] {
-		return nil
-	}
-	return a.FindPath(start, tb, blocked, a.excuseBy(ex))
 }
 
 // reachableFrom returns blocks reachable from b (following all edges).
@@ -830,19 +723,6 @@ func isWriterType(t types.Type) bool {
 	}
 	// an in-memory buffer handed on by pointer plays the same role
 	return isBufferPtr(t)
-}
-
-func pkgFuncName(f *ssa.Function) string {
-	if f == nil {
-		return ""
-	}
-	if f.Pkg == nil {
-		if f.Signature.Recv() != nil {
-			return f.String()
-		}
-		return f.String()
-	}
-	return f.String()
 }
 
 // sinkOf classifies a call as a write to some writer.
@@ -986,95 +866,6 @@ func callValue(ci ssa.CallInstruction) ssa.Value {
 // (backwards over predecessor edges, ignoring back edges), each as the set of literals asserted
 // along the way; contradictory ways are dropped. The enumeration is cut off at a dominator after
 // maxDepth steps (then only the dominating facts are used, which is sound: fewer facts).
-
-func (a *FnA) WaysTo(b *ssa.BasicBlock) []Facts {
-	ws := a.ways(b, 10, map[*ssa.BasicBlock]bool{})
-	if len(ws) > 256 {
-		return []Facts{a.FactsAt(b)}
-	}
-	return ws
-}
-
-// WaysOnEdge: ways of arriving at succ through pred.
-func (a *FnA) WaysOnEdge(pred, succ *ssa.BasicBlock) []Facts {
-	var out []Facts
-	n, idx := 0, -1
-	for i, s := range pred.Succs {
-		if s == succ {
-			n++
-			idx = i
-		}
-	}
-	for _, w := range a.WaysTo(pred) {
-		f := Facts{}
-		for k, v := range w {
-			f[k] = v
-		}
-		ok := true
-		if n == 1 {
-			for _, l := range a.edgeLits(pred, idx) {
-				if old, dup := f[l.Atom]; dup && old != l.Pol {
-					ok = false
-				}
-				f[l.Atom] = l.Pol
-			}
-		}
-		if ok {
-			out = append(out, f)
-		}
-	}
-	return out
-}
-
-func (a *FnA) ways(b *ssa.BasicBlock, depth int, onPath map[*ssa.BasicBlock]bool) []Facts {
-	if depth == 0 || len(b.Preds) == 0 {
-		f := Facts{}
-		for k, v := range a.FactsAt(b) {
-			f[k] = v
-		}
-		return []Facts{f}
-	}
-	onPath[b] = true
-	defer delete(onPath, b)
-	var out []Facts
-	for _, p := range b.Preds {
-		if onPath[p] || b.Dominates(p) {
-			continue // back edge
-		}
-		n, idx := 0, -1
-		for i, s := range p.Succs {
-			if s == b {
-				n++
-				idx = i
-			}
-		}
-		for _, w := range a.ways(p, depth-1, onPath) {
-			ok := true
-			if n == 1 {
-				for _, l := range a.edgeLits(p, idx) {
-					if old, dup := w[l.Atom]; dup && old != l.Pol {
-						ok = false
-					}
-					w[l.Atom] = l.Pol
-				}
-			}
-			if ok {
-				out = append(out, w)
-			}
-			if len(out) > 512 {
-				return out
-			}
-		}
-	}
-	if len(out) == 0 {
-		f := Facts{}
-		for k, v := range a.FactsAt(b) {
-			f[k] = v
-		}
-		return []Facts{f}
-	}
-	return out
-}
 
 // writeWrapper recognises a module-local helper whose whole effect is one write of one of its
 // parameters to its writer parameter, returning that write's error (e.g.
